@@ -62,7 +62,7 @@ def run_case(ctx, kind_, idx):
     cid = ctx.case_id(kind_, idx)
     Slot.case = cid
     strat = (R.ALL + ["FunctionRFA"])[int(rng.integers(0, 7))]
-    x, y, meta = R.gen_series(rng, 2, 60, ties_share=0.25)
+    x, y, meta = R.gen_series(rng, 2, 60, ties_share=0.25, long_share=R.LONG_SHARE)
     n = R.gen_n(rng)
     kw, _a = R.gen_params(rng, strat if strat != "FunctionRFA" else "CubicSplineRFA", n)
     klass = None
